@@ -21,7 +21,7 @@ ASSUMPTIONS = ["vf/vlog.py implements IEEE 1364-2005 5.4/5.5/9.5 for the emitted
                "one-step equivalence from arbitrary COMMON state: registers are identified through the real ConvOutput.ns names, memory words index by index"]
 BOUNDS = {"quick": "expression grammar: all depth-1 programs over 8 leaves in 6 contexts + depth-2 programs with 2 sibling leaves in 3 contexts (~18 000 programs); statement grammar: 18 templates x 24 operand pairs x comb/sync (~800); "
                    "corpus of 42 real cores + 4 whole SoCCore(cpu_type=None) netlists (UART, timer, RAM, CSR banks, bus interconnect; ~1700 lines of Verilog each); memory matrix: 3 modes x we-granularity x async/sync/re x init at depth 4 and 5, 2-port and 2-clock variants (55 designs); every state and input of one step per program",
-          "thorough": "expression grammar: depth-2 programs with 6 sibling leaves in all 6 contexts (~74 000 programs); statement grammar: 18 templates x 144 operand pairs x comb/sync/second clock domain (~7 500); corpus and memory matrix as quick"}
+          "thorough": "expression grammar: depth-2 programs with 6 sibling leaves in all 6 contexts (~74 000 programs) + all binary operators over two compound operands from an 82-element representative set in 2 contexts (~180 000 programs); statement grammar: 18 templates x 144 operand pairs x comb/sync/second clock domain (~7 500); corpus and memory matrix as quick"}
 OUTSIDE = "expressions deeper than 2 operators outside the corpus; Instances/tristates/DDR specials (not Verilog-text semantics of the printer); x/z propagation; run-to-run name stability (C02)"
 FUNCS = ["litex.gen.fhdl.verilog.convert", "litex.gen.fhdl.expression._generate_expression", "litex.gen.fhdl.expression._generate_operator", "litex.gen.fhdl.expression._generate_slice",
          "litex.gen.fhdl.expression._generate_constant", "litex.gen.fhdl.verilog._generate_node", "litex.gen.fhdl.verilog._generate_combinatorial_logic_synth", "litex.gen.fhdl.verilog._generate_synchronous_logic",
@@ -493,6 +493,16 @@ def all_programs(tier):
     for s in d2:
         for ctx in ctxs2:
             progs.append((s, ctx))
+    if tier == "thorough":
+        # both operands compound: op(inner, inner') over the representative inner set
+        inn = inner_set()
+        for op in BIN:
+            for x in inn:
+                for y in inn:
+                    sp = ("op", op, x, y)
+                    if admissible(sp, L):
+                        progs.append((sp, ("asg", 8, False)))
+                        progs.append((sp, ("asg", 6, True)))
     return progs
 
 
